@@ -316,10 +316,10 @@ func (x *Explorer) intrinsic(fr *Frame, st *State, ins *ssa.Call, callee *ssa.Fu
 			return kTrue, true
 		case "Dec.SdkIntTrim":
 			d := asDec(st, args[0])
-			return &IntV{L: linAtom("trunc[" + regLin(d.L) + "]"), NonNeg: d.NonNeg}, true
+			return &IntV{L: linAtom("trunc[" + regLin(d.L) + "]"), NonNeg: d.NonNeg, Inexact: d.Inexact}, true
 		case "Dec.BigInt":
 			d := asDec(st, args[0])
-			return T(&IntV{L: d.L, NonNeg: d.NonNeg}, newErr(st, "math.BigInt", 0)), true
+			return T(&IntV{L: d.L, NonNeg: d.NonNeg, Inexact: d.Inexact}, newErr(st, "math.BigInt", 0)), true
 		case "Dec.Int64":
 			return T(&Sym{N: "int64of(" + regLin(asDec(st, args[0]).L) + ")"}, newErr(st, "math.Int64", 0)), true
 		case "Dec.NumDecimalPlaces":
@@ -449,10 +449,10 @@ func (x *Explorer) intrinsic(fr *Frame, st *State, ins *ssa.Call, callee *ssa.Fu
 			return x.intFromString(st, args[0]), true
 		case "Int.Add":
 			a, b := asInt(st, args[0]), asInt(st, args[1])
-			return &IntV{L: a.L.Add(b.L), NonNeg: a.NonNeg && b.NonNeg}, true
+			return &IntV{L: a.L.Add(b.L), NonNeg: a.NonNeg && b.NonNeg, Inexact: a.Inexact || b.Inexact}, true
 		case "Int.Sub":
 			a, b := asInt(st, args[0]), asInt(st, args[1])
-			return &IntV{L: a.L.Sub(b.L)}, true
+			return &IntV{L: a.L.Sub(b.L), Inexact: a.Inexact || b.Inexact}, true
 		case "Int.String":
 			i := asInt(st, args[0])
 			return &DecStr{D: &DecV{L: i.L, NonNeg: i.NonNeg, Fixed: "*"}}, true
@@ -612,7 +612,7 @@ func (x *Explorer) intFromString(st *State, s Val) Val {
 	case *DecStr:
 		// the canonical decimal rendering of an integer value parses back to itself in any base-0 reading
 		if v.D.Fixed == "*" {
-			return &Tuple{Vs: []Val{&IntV{L: v.D.L, NonNeg: v.D.NonNeg}, ok}}
+			return &Tuple{Vs: []Val{&IntV{L: v.D.L, NonNeg: v.D.NonNeg, Inexact: v.D.Inexact}, ok}}
 		}
 	case *KConst:
 		var n int64
